@@ -44,9 +44,10 @@ type MC struct {
 }
 type MapV struct{ c []MC }
 type FC struct {
-	g   *T
-	fn  *ssa.Function
-	env []Value
+	g      *T
+	fn     *ssa.Function
+	env    []Value
+	native func(fr *Frame, args []Value, g *T) Value // engine-provided function value (sort.Slice swapper)
 }
 type FuncV struct{ c []FC }
 type IC struct {
@@ -262,13 +263,13 @@ func merge(g *T, a, b Value) Value {
 		var c []FC
 		for _, s := range x.c {
 			if gg := And(g, s.g); gg != FF {
-				c = append(c, FC{gg, s.fn, s.env})
+				c = append(c, FC{gg, s.fn, s.env, s.native})
 			}
 		}
 		ng := Not(g)
 		for _, s := range y.c {
 			if gg := And(ng, s.g); gg != FF {
-				c = append(c, FC{gg, s.fn, s.env})
+				c = append(c, FC{gg, s.fn, s.env, s.native})
 			}
 		}
 		return FuncV{c}
